@@ -11,7 +11,7 @@ use std::ffi::OsString;
 
 pub static DEF: PropDef = PropDef {
     id: "C08",
-    rule: "random: trees from empty to 3000 entries (thorough: 30000) in 1-12 directories nested up to 4 deep, names of 1-250 bytes (so that the 128 KiB budget of a 256 KiB stack limit forces many batches cheaply) incl. blanks/newlines/leading dashes, run through the built find binary under RLIMIT_STACK {256 KiB, 1 MiB, 8 MiB, unlimited} x -exec/-execdir x 0-3 fixed arguments x test prefix {none, -type f, -name 'f*', ! -name '*7*'} x {-depth} x one or two starting points x '-quit' after the k-th matching entry x rec scripted to fail (exit 1..255 / signal) on chosen invocations x a missing command x a labelled -printf after the action (its truth). Oracle: records from rec: fixed arguments first and unchanged; the concatenation of the appended paths over all invocations == the reference visit-order list of entries on which the action is reached (each exactly once, in order); no 'Argument list too long'; all pending batches have run after -quit and at exit; exit status != 0 iff some invocation failed or could not be started; the -printf after the action fires on every reached entry (action always true). -execdir: every record's cwd is one directory, its appended arguments are ./basename of entries of exactly that directory, per-directory order preserved, every entry delivered once. Non-trivial = >= 2 invocations of the action, or a -quit / failing-invocation / missing-command case. Distinct = distinct case JSON.",
+    rule: "random: trees from empty to 3000 entries (thorough: 30000) in 1-12 directories nested up to 4 deep, names of 1-250 bytes (so that the 128 KiB budget of a 256 KiB stack limit forces many batches cheaply) incl. blanks/newlines/leading dashes, run through the built find binary under RLIMIT_STACK {256 KiB, 1 MiB, 8 MiB, unlimited} x -exec/-execdir x 0-3 fixed arguments x test prefix {none, -type f, -name 'f*', ! -name '*7*'} x {-depth} x one or two starting points (the first spelled c/r, ./c/r, c/r/, c//r, c/r/., c/up/../r or c/up/..; for -execdir on such a starting point itself the textual and the physical (directory, ./name) pair are both accepted) x '-quit' after the k-th matching entry x rec scripted to fail (exit 1..255 / signal) on chosen invocations x a missing command x a labelled -printf after the action (its truth). Oracle: records from rec: fixed arguments first and unchanged; the concatenation of the appended paths over all invocations == the reference visit-order list of entries on which the action is reached (each exactly once, in order); no 'Argument list too long'; all pending batches have run after -quit and at exit; exit status != 0 iff some invocation failed or could not be started; the -printf after the action fires on every reached entry (action always true). -execdir: every record's cwd is one directory, its appended arguments are ./basename of entries of exactly that directory, per-directory order preserved, every entry delivered once. Non-trivial = >= 2 invocations of the action, or a -quit / failing-invocation / missing-command case. Distinct = distinct case JSON.",
     assumptions: &[
         "the running kernel decides whether an invocation is accepted",
         "-exec batches are flushed at the end of each starting point (visible only as invocation boundaries, which are not asserted)",
@@ -47,7 +47,13 @@ pub struct Case {
     /// its own; a later successful invocation must not erase an earlier failure)
     #[serde(default)]
     pub second: bool,
+    /// index into ROOT_SPELLINGS for the first starting point
+    #[serde(default)]
+    pub root_spelling: u8,
 }
+
+/// spellings of the first starting point (the tree is built at c/r; c/up is an empty sibling)
+pub const ROOT_SPELLINGS: &[&str] = &["c/r", "./c/r", "c/r/", "c//r", "c/r/.", "c/up/../r", "c/up/.."];
 
 fn stack_bytes(s: u8) -> u64 {
     match s {
@@ -113,6 +119,7 @@ pub fn gen_case(g: &mut Gen, big: bool) -> Case {
         script,
         missing_cmd: g.chance(1, 25),
         second: g.chance(1, 4),
+        root_spelling: if g.chance(1, 3) { g.below(ROOT_SPELLINGS.len() as u64) as u8 } else { 0 },
     }
 }
 
@@ -155,7 +162,8 @@ fn build(c: &Case, root: &str) {
 pub fn check(ctx: &mut Ctx, c: &Case) -> Outcome {
     ctx.fresh_case_dir();
     build(c, "c/r");
-    let mut roots = vec!["c/r".to_string()];
+    let _ = std::fs::create_dir("c/up");
+    let mut roots = vec![ROOT_SPELLINGS[c.root_spelling as usize % ROOT_SPELLINGS.len()].to_string()];
     if c.two_roots {
         build(c, "c/s");
         roots.push("c/s".to_string());
@@ -296,18 +304,35 @@ pub fn check(ctx: &mut Ctx, c: &Case) -> Outcome {
         }
     } else {
         // per directory: expected ./basename sequence
-        let mut want: BTreeMap<String, Vec<String>> = BTreeMap::new();
-        for p in &reached {
-            let (par, base) = match p.rfind('/') {
-                Some(i) => (&p[..i], &p[i + 1..]),
-                None => ("", p.as_str()),
-            };
-            want.entry(format!("{cwd_abs}/{par}")).or_default().push(format!("./{base}"));
-        }
         let mut got: BTreeMap<String, Vec<String>> = BTreeMap::new();
         for r in &recs {
             let e = got.entry(lossy(&r.cwd)).or_default();
             e.extend(r.args.iter().skip(c.fixed.len()).map(|a| lossy(a)));
+        }
+        let canon = |d: &str| std::fs::canonicalize(if d.is_empty() { "." } else { d }).map(|x| x.to_string_lossy().into_owned()).unwrap_or_else(|_| format!("{cwd_abs}/{d}"));
+        let mut want: BTreeMap<String, Vec<String>> = BTreeMap::new();
+        for p in &reached {
+            let t = p.trim_end_matches('/');
+            let (par, base) = match t.rfind('/') {
+                Some(i) => (&t[..i], &t[i + 1..]),
+                None => ("", t),
+            };
+            // the textual view (directory = the text before the last component) and, for a starting
+            // point spelled with a trailing '/', '.' or '..', also the physical one (real parent, real
+            // name): whichever of them was observed is the expectation
+            let mut views = vec![(canon(par), format!("./{base}"))];
+            if roots.contains(p) {
+                if p.ends_with('/') {
+                    views.push((canon(par), format!("./{base}/")));
+                }
+                if let Ok(real) = std::fs::canonicalize(p) {
+                    if let (Some(d), Some(n)) = (real.parent(), real.file_name()) {
+                        views.push((d.to_string_lossy().into_owned(), format!("./{}", n.to_string_lossy())));
+                    }
+                }
+            }
+            let pick = views.iter().find(|(d, n)| got.get(d).is_some_and(|v| v.contains(n))).unwrap_or(&views[0]).clone();
+            want.entry(pick.0).or_default().push(pick.1);
         }
         if got != want {
             // classify
@@ -318,7 +343,9 @@ pub fn check(ctx: &mut Ctx, c: &Case) -> Outcome {
             } else {
                 "entries-of-another-directory-or-order"
             };
-            return fail(format!("C08:{what}:execdir{}", if quit_hit { ":quit" } else { "" }), desc());
+            let sp = &roots[0];
+            let odd = if sp.ends_with("/..") { ":starting-point-ends-in-dotdot" } else if sp.ends_with("/.") { ":starting-point-ends-in-dot" } else if sp.ends_with('/') { ":starting-point-ends-in-slash" } else { "" };
+            return fail(format!("C08:{what}:execdir{}{odd}", if quit_hit { ":quit" } else { "" }), desc());
         }
     }
     // the second action delivers the same list (in its own batches)
@@ -350,6 +377,7 @@ pub fn check(ctx: &mut Ctx, c: &Case) -> Outcome {
         .class_if(failed, "failing-invocation")
         .class_if(c.execdir, "execdir")
         .class_if(c.two_roots, "two-starting-points")
+        .class_if(c.root_spelling != 0, "starting-point-not-in-normal-form")
         .class_if(c.second, "two-batching-actions")
         .class_if(reached.is_empty(), "nothing-reached")
         .class(match c.stack {
